@@ -388,7 +388,7 @@ def r12d(run):
 
 
 def check(run):
-    run.rules_run += ["R12a", "R12b", "R12c", "R12d"]
+    run.rules_run += ["R12a", "R12b", "R12c", "R12d", "R06i"]
     run.explain("Static gate coverage for the two conversion preferences: each converter (with the helpers and converters "
                 "it delegates to) reads the flags its conversions depend on; Options.__init__ turns an addition policy "
                 "that was not given into False under no_data_loss (guard evaluated for the parameter's default); each "
@@ -398,3 +398,6 @@ def check(run):
     r12b(run)
     r12c(run)
     r12d(run)
+    from . import c06
+    _pd, _A, _B = c06.siblings(run)
+    c06.r06i(run, _A, _B)
